@@ -1404,15 +1404,18 @@ fn mutate_header_inner(r: &mut Rng, d: &[u8], to_client: bool) -> Vec<u8> {
             let sl = *b.get(6 + dl).unwrap_or(&0) as usize;
             let at = 7 + dl + sl;
             if at + 2 < b.len() {
-                let v = *r.pick(&[0u64, 1, 63, 16383, 1 << 20, VMAX]);
+                // (lengths just around what header protection needs - 4 bytes of packet number
+                // plus a 16-byte sample - are the interesting small ones)
+                let v = if r.bool() { r.below(48) } else { *r.pick(&[0u64, 1, 63, 16383, 1 << 20, VMAX]) };
                 let enc = var_bytes(v);
                 let n = enc.len().min(b.len() - at);
                 b[at..at + n].copy_from_slice(&enc[..n]);
             }
         }
         5 => {
-            let k = r.usize(b.len());
-            b.truncate(k.max(1));
+            // cut anywhere, or a few bytes after the header (too short for header protection)
+            let k = if r.bool() { r.usize(b.len()) } else { (if long { 7 + b[5] as usize } else { 1 }) + r.usize(48) };
+            b.truncate(k.clamp(1, b.len()));
         }
         6 => {
             // coalesce with garbage / with itself
@@ -1474,10 +1477,11 @@ fn genuine_done(w: &World) -> bool {
     w.led.flows.iter().all(|((p, _, _), f)| !pairs.contains(p) || lost.contains(p) || !f.must_complete() || f.complete())
 }
 
-fn garbage_case(seed: u64, trace: bool) -> CaseOut {
+fn garbage_case(seed: u64, lane: Lane, trace: bool) -> CaseOut {
     use crate::scen::{Honest, Knobs};
     let mut r = Rng::new(seed ^ 0xC03E);
     let mut k = Knobs::default();
+    k.lane = lane;
     k.max_stream_len = 20_000;
     k.n_clients = 1 + r.usize(2);
     k.datagrams = r.bool();
@@ -1598,13 +1602,18 @@ pub fn run(ctx: &Ctx) -> i32 {
     let g = Group { name: "params", cases: ctx.tier.pick(40_000, 2_000_000), budget_s: ctx.tier.pick(15.0, 500.0), exhaustive: false };
     run_group(ctx, &mut rep, &g, |_, seed, trace| params_case(seed, trace));
     let g = Group { name: "garbage", cases: ctx.tier.pick(2500, 100_000), budget_s: ctx.tier.pick(15.0, 500.0), exhaustive: false };
-    run_group(ctx, &mut rep, &g, |_, seed, trace| garbage_case(seed, trace));
+    run_group(ctx, &mut rep, &g, |_, seed, trace| garbage_case(seed, Lane::Null, trace));
+    #[cfg(feature = "real")]
+    {
+        let g = Group { name: "garbage-rustls", cases: ctx.tier.pick(600, 30_000), budget_s: ctx.tier.pick(15.0, 500.0), exhaustive: false };
+        run_group(ctx, &mut rep, &g, |_, seed, trace| garbage_case(seed, Lane::Real, trace));
+    }
     finish(
         ctx,
         &rep,
         Finish {
             level: "exploration",
-            rule: "Victims are unmodified quinn endpoints (server or client; ack-frequency on/off; CID lengths 0/8/20 on both sides; datagrams on/off/tiny; tiny windows and stream counts); a bystander connection with its own transfer shares the victim endpoint and must complete undisturbed in every case. (frame-class) 30 kinds of well-understood illegal frames, correctly protected (frame-injection hook on an honest quinn peer): the victim must close with a code from the set QUIC prescribes for that violation (and tell its peer the same code) or ignore it where QUIC says so. (frame-fuzz) scripts of up to 12 packets of 1-4 random frames - every frame type with boundary-valued fields (0,1,63,64,2^14,2^30,2^60+1,2^62-1), hand-built ACKs and NEW_CONNECTION_IDs, truncated / bit-flipped / unknown-type / non-minimal / over-long encodings - in the Initial, Handshake and 1-RTT spaces, optionally under loss/duplication/reordering: no panic (caught and reported), the world becomes quiet after each packet, ConnectionLost at most once and only as a transport error of a standard code or because the peer closed. (flood) hundreds to thousands of packets of state-touching frames of ten kinds (CID churn, PATH_CHALLENGE, one-byte STREAM chunks with gaps, credit frames, stream cycling, DATAGRAMs, many-range ACKs, RESET/STOP, NEW_TOKEN, CRYPTO gaps): at most 64 + 4 x (datagrams the peer sent) datagrams from the victim per hostile packet, quiet after each, and the bytes retained by the case's thread (counting allocator) grow by no more than the victim's windows plus a small per-packet allowance. (params) the attacker presents transport parameters produced by TLV-level mutation of the genuine encoding (boundary values for every integer parameter incl. min_ack_delay, deletions, duplicates, wrong lengths, unknown ids, altered CID echoes, truncation, noise): reject with TRANSPORT_PARAMETER_ERROR / PROTOCOL_VIOLATION or accept and survive traffic in both directions. (garbage) honest worlds while 0-3 unauthenticated datagrams per step are handed to Endpoint::handle: structure-aware mutations of recent genuine datagrams (first byte, version, CID lengths, token/length fields, truncation, coalescing, packet type, fixed bit) from the genuine or a foreign address, and noise: no panic, no honest connection lost, every transfer completes.".into(),
+            rule: "Victims are unmodified quinn endpoints (server or client; ack-frequency on/off; CID lengths 0/8/20 on both sides; datagrams on/off/tiny; tiny windows and stream counts); a bystander connection with its own transfer shares the victim endpoint and must complete undisturbed in every case. (frame-class) 30 kinds of well-understood illegal frames, correctly protected (frame-injection hook on an honest quinn peer): the victim must close with a code from the set QUIC prescribes for that violation (and tell its peer the same code) or ignore it where QUIC says so. (frame-fuzz) scripts of up to 12 packets of 1-4 random frames - every frame type with boundary-valued fields (0,1,63,64,2^14,2^30,2^60+1,2^62-1), hand-built ACKs and NEW_CONNECTION_IDs, truncated / bit-flipped / unknown-type / non-minimal / over-long encodings - in the Initial, Handshake and 1-RTT spaces, optionally under loss/duplication/reordering: no panic (caught and reported), the world becomes quiet after each packet, ConnectionLost at most once and only as a transport error of a standard code or because the peer closed. (flood) hundreds to thousands of packets of state-touching frames of ten kinds (CID churn, PATH_CHALLENGE, one-byte STREAM chunks with gaps, credit frames, stream cycling, DATAGRAMs, many-range ACKs, RESET/STOP, NEW_TOKEN, CRYPTO gaps): at most 64 + 4 x (datagrams the peer sent) datagrams from the victim per hostile packet, quiet after each, and the bytes retained by the case's thread (counting allocator) grow by no more than the victim's windows plus a small per-packet allowance. (params) the attacker presents transport parameters produced by TLV-level mutation of the genuine encoding (boundary values for every integer parameter incl. min_ack_delay, deletions, duplicates, wrong lengths, unknown ids, altered CID echoes, truncation, noise): reject with TRANSPORT_PARAMETER_ERROR / PROTOCOL_VIOLATION or accept and survive traffic in both directions. (garbage, plaintext and rustls lanes) honest worlds while 0-3 unauthenticated datagrams per step are handed to Endpoint::handle: structure-aware mutations of recent genuine datagrams (first byte, version, CID lengths, token/length fields, truncation, coalescing, packet type, fixed bit) from the genuine or a foreign address, and noise: no panic, no honest connection lost, every transfer completes.".into(),
             assumptions: vec![
                 "panics are observed through catch_unwind around each case; aborts would kill the run (and be reported by the wrapper as a harness error)".into(),
                 "memory is observed as bytes retained by the case's thread, which includes harness bookkeeping; the bound leaves room for it".into(),
